@@ -50,6 +50,7 @@ EXCLUSIONS = {
     'implicit-conv-const-expr': 'a constant *expression* (not a bare literal) is only converted implicitly when its value '
                                 'is representable in the destination [finding operand-value-after-implicit-conversion]',
     'single-alias': 'at most one alias pointer per variable [finding two-aliases-stale-value]',
+    'ternary-one-const-arm': 'the arms of ?: are both constant or both non-constant [finding ternary-partial-possible]',
     'alias-self-read': 'the value stored through an alias pointer never reads the aliased variable [finding alias-ternary]',
 }
 
@@ -172,6 +173,8 @@ class Writer:
         self.lines = []
         self.cur = ''
         self.probes = {}   # pid -> (line, col, tokstr, kind)
+        self.parents = {}  # pid -> pid of the nearest enclosing probed expression
+        self.stack = []
 
     def w(self, s):
         self.cur += s
@@ -194,6 +197,19 @@ class Writer:
 
 def rx(w, n):
     """render expression node n"""
+    if n.pid is not None:
+        if w.stack:
+            w.parents[n.pid] = w.stack[-1]
+        w.stack.append(n.pid)
+        try:
+            _rx(w, n)
+        finally:
+            w.stack.pop()
+    else:
+        _rx(w, n)
+
+
+def _rx(w, n):
     probe = w.inst and n.pid is not None
     if probe:
         w.w('VP(%d, ' % n.pid)
@@ -294,6 +310,7 @@ class Gen:
         self.helpers = []     # (name, kind, param types, ret type)
         self.globals = []     # (name, type)
         self.feature_count = {}
+        self.recent = []      # (var, type, constant) of recent var-vs-constant conditions
 
     def feat(self, f):
         self.feature_count[f] = self.feature_count.get(f, 0) + 1
@@ -520,6 +537,18 @@ class Gen:
         if x < 0.97 or not self.helpers:
             self.feat('ternary')
             a, b = self.expr(env, depth - 1, avoid), self.expr(env, depth - 1, avoid)
+            if self.cal and a.const != b.const:
+                # exclusion ternary-one-const-arm: arms are both constant or both non-constant
+                if r.random() < 0.5:
+                    a, b = self.lit(), self.lit()
+                else:
+                    x1 = self.leaf(env, avoid)
+                    if x1.const:
+                        a, b = self.lit(), self.lit()
+                    elif a.const:
+                        a = x1
+                    else:
+                        b = x1
             if self.cal and is_signed(promote(a.t)) != is_signed(promote(b.t)):
                 a, b = self.signed_val(a), self.signed_val(b)
             return N('cond', self.cond(env, depth - 1, avoid), a, b, pid=self.pid(), t=uac(a.t, b.t),
@@ -545,11 +574,23 @@ class Gen:
         r = self.rng
         x = r.random()
         scal = [v for v in env.scalar_vars() if v[0] != avoid]
+        if self.bias == 'cond' and self.recent and r.random() < 0.45:
+            # related condition: same variable, neighbouring constant, any operator
+            name, t, cv = r.choice(self.recent[-6:])
+            if any(n == name for n, _t in scal):
+                self.feat('related-condition')
+                v = N('var', name, pid=self.pid(), t=t)
+                c = self.mk_lit(cv + r.choice([-1, 0, 0, 0, 1]))
+                if self.cal and is_signed(promote(v.t)) != is_signed(promote(c.t)):
+                    v, c = self.signed_val(v), self.signed_val(c)
+                return self.mk_bin(r.choice(CMP), v, c)
         if scal and x < 0.6:
             # comparison of a variable with a constant: the bread and butter of value flow
             name, t = r.choice(scal)
             v = N('var', name, pid=self.pid(), t=t)
             c = self.lit() if r.random() < 0.5 else self.smalllit(0, 12)
+            if c.v is not None and abs(c.v) < 2000000000:
+                self.recent.append((name, t, c.v))
             if self.cal and is_signed(promote(v.t)) != is_signed(promote(c.t)):
                 v, c = self.signed_val(v), self.signed_val(c)
             return self.mk_bin(r.choice(CMP), v, c)
@@ -613,6 +654,8 @@ class Gen:
         x = r.random()
         depth_ok = indent < 4
         scal = env.writable_scalars()
+        if self.bias == 'cond' and scal and depth_ok and r.random() < 0.25:
+            x = 0.5     # force an if statement
         if x < 0.22 or not scal:
             e = self.expr(env) if r.random() < 0.6 else self.lit()
             typ = self.decl_type_for(e)
@@ -911,7 +954,9 @@ class Gen:
         plain.line('    return (int)(sink & 0);')
         inst.line('    vp_finish(); return (int)(sink & 0);')
         self.emit(out, 0, ['}'])
-        return Program(plain.text(), inst.text(), plain.probes, entries, sorted(self.consts), dict(self.feature_count), self.lang)
+        prog = Program(plain.text(), inst.text(), plain.probes, entries, sorted(self.consts), dict(self.feature_count), self.lang)
+        prog.parents = plain.parents
+        return prog
 
 
 S0_FIELDS = {'a': 'int', 'b': 'unsigned char', 'c': 'short'}
@@ -947,6 +992,7 @@ class Program:
         self.consts = consts
         self.features = features
         self.lang = lang
+        self.parents = {}
 
     def input_vectors(self, rng, n):
         """n input vectors (lists of 8 ints): boundary values, program constants +-1, random"""
